@@ -493,3 +493,14 @@ Proof.
   intros Z. unfold compose_step. cbn [o_r o_t]. rewrite (is_zero_true _ Z).
   destruct (o_r c), (o_t c); reflexivity.
 Qed.
+
+(* the shortcut taken by check_call for CInverse *)
+Lemma close_rot_inverse r o : ~ n2 r == 0 -> ~ n2 o == 0 ->
+  close_rot tol (qconj r) o = close_rot tol (qinv_n r) o.
+Proof.
+  intros Hr Ho.
+  assert (Hi : ~ n2 (qinv_n r) == 0) by (rewrite qinv_n_eq; apply n2_inv_nonzero; assumption).
+  rewrite (close_rot_spec _ _ _ (n2_conj_nonzero _ Hr) Ho), (close_rot_spec _ _ _ Hi Ho).
+  apply close_mat_proper; try reflexivity.
+  rewrite qinv_n_eq, rot_conj, (rot_inv _ Hr). reflexivity.
+Qed.
